@@ -93,11 +93,18 @@ def check_c07(pid, tier, seed, res, work):
     stats = Counter()
     samples = []
     sizes = [0, 1, 2, 3, 4, 5, 6, 9, 14] if tier == 'quick' else [0, 1, 2, 3, 4, 4, 5, 6, 7, 11, 20, 60, 200]
-    for pi, n in enumerate(sizes):
-        files = gen_project(rng, seed + pi, n)
+    # (number of files, entries that cannot be read: dangling links named *.java sorting first / in the middle / last)
+    plan = [(n, []) for n in sizes] + [(0, ['Gone.java']), (1, ['zz/Gone.java']), (2, ['0first/Gone.java', 'zz/Last.java']), (3, ['a/Mid.java']),
+                                       (0, ['A.java', 'B.java'])] + ([(7, ['a/Mid.java', 'zz/Last.java']), (12, ['0first/Gone.java'])] if tier == 'thorough' else [])
+    for pi, (n, dangling) in enumerate(plan):
+        files = gen_project(rng, seed + pi, n, dup_fragments=not dangling)
         proj = '%s/p%d' % (work, pi)
         os.makedirs(proj, exist_ok=True)
         qrun.write_project(proj, files)
+        for rel in dangling:
+            os.makedirs(os.path.dirname(os.path.join(proj, rel)), exist_ok=True)
+            os.symlink('/nonexistent/verif-target', os.path.join(proj, rel))
+            stats['unreadable_entries'] += 1
         if tier == 'thorough' and pi in (3, 6, 9):
             hb = race_harness()
             if hb:
@@ -111,6 +118,16 @@ def check_c07(pid, tier, seed, res, work):
             res.tie_broken.append('orders campaign could not run: ' + r['error'])
             return stats, samples
         runs = r['runs']
+        hung = [x for x in runs if x.get('hang') == 'true']
+        if hung:
+            x = hung[0]
+            res.violations.append(dict(property='C07', what='the scan did not terminate (graph.Initialize still running after 25 s)',
+                                       project=[(p, d.decode('utf-8', 'replace')) for p, d in files], dangling_links=dangling,
+                                       take_up_order=[f for f in unhx(x['want']).decode().split('\x00')] if x['want'] != 'x' else 'free-running',
+                                       gomaxprocs=x['procs'], kind=x['kind'],
+                                       how='graph.Initialize(dir) with the verif hooks releasing the files to the workers in the given order (harness `orders`); entries listed under dangling_links are symbolic links to a missing target'))
+            stats['hangs'] += 1
+            continue
         stats['projects'] += 1
         stats['runs'] += len(runs)
         stats['forced_orders'] += sum(1 for x in runs if x['kind'] == 'forced')
@@ -149,6 +166,7 @@ def check_c07(pid, tier, seed, res, work):
         # hypothesis of the theorem, and the oracle: union of per-file graphs
         disk = sorted(os.path.join(proj, f) for f, _ in files)
         per = per_file_union(disk, work)
+        stats['projects_with_unreadable_entries'] += 1 if dangling else 0
         ids = Counter()
         for p_, lines in per.items():
             for l in lines:
